@@ -2073,7 +2073,8 @@ def execute_threads(plan, want_trace=False) -> dict:
         counters[k] = counters.get(k, 0) + n
 
     sched = Scheduler(st.rng('sched'), {'all': TRACED_ALL, 'classes': TRACED_CLASSES}.get(knobs.get('trace_scope'), TRACED),
-                      switch_p=knobs['switch_p'], schedule=plan.get('schedule'), max_steps=120000,
+                      switch_p=knobs['switch_p'], schedule=plan.get('schedule'),
+                      max_steps=360000 if (knobs.get('opcode_trace') and knobs.get('opcode_scope') == 'all') else 120000,
                       opcode_files=(() if not knobs.get('opcode_trace') else
                                     (TRACED_ALL if knobs.get('opcode_scope') == 'all' else ('pane/util.py',))))
     sched.region_probe = lambda fr: fr.f_code.co_name == '__call__' and fr.f_code.co_filename.endswith('pane/util.py')
